@@ -332,7 +332,7 @@ func vpHas(tr []string, m string) bool {
 	return false
 }
 
-//vp:property C05 C16 C01
+//vp:property C05 C16 C01 C18
 //vp:set n 9 12
 //vp:bounds every subset of {openid, local, basic, kerberos, ntlm} that config.Load lets start (not ntlm+kerberos), cookie auth on/off; one request to the gateway endpoint whose Authorization header is absent, empty, or any string of <= n bytes (so: a bare scheme keyword, wrong-case and truncated schemes, a scheme of a disabled mechanism, several keywords in one value); TLS disabled (the route table does not depend on it)
 //vp:assume gorilla/mux: routes are tried in registration order, first match wins; HeadersRegexp matches when a header value contains the (literal) expression; MatcherFunc as given. The three authentication wrappers are taken to have confirmed the credentials (their own logic is VP_C05_basic / VP_C05_ntlm); SPNEGO validation is third-party
@@ -365,7 +365,16 @@ func VP_C05_routes() {
 	vpConf.Caps.EnablePort, vpConf.Caps.EnablePnp = vpBool("port"), vpBool("pnp")
 	vpConf.Caps.DisableRedirect, vpConf.Caps.RedirectAll = vpBool("disableall"), vpBool("enableall")
 
+	noHosts := vpBool("no-hosts-configured")
+	if noHosts {
+		vpConf.Server.Hosts = nil
+	}
 	fatal := vpCatchFatal(main)
+	if noHosts {
+		// a gateway without a single host is refused at start, whatever the authentication mechanisms
+		vpAssert(fatal && vpListened == 0, "no-hosts-configured-refuses-to-start")
+		return
+	}
 	vpAssert(fatal && vpListened == 1, "main-runs-up-to-listen")
 	// the gateway endpoint's subrouter
 	var rdp *mux.Router
